@@ -49,7 +49,7 @@ var faultKinds = []simapi.FaultKind{simapi.Reject, simapi.LostReply, simapi.Stop
 
 func (e *C11) Name() string { return "fault.c11" }
 func (e *C11) Rule() string {
-	return "corpus = first deployment, rolling update, canary start, promotion by time, promotion by validate, failure and rollback, node removal, settings change, migration from a DaemonSet; the failure-free run of each scenario is recorded, then re-run once per (API call index k, fault kind) with the fault armed at the k-th call issued by a controller: both tiers = every call x 4 kinds, thorough adds 20000 seeded pairs; stop faults void the rest of the invocation and all reconciler instances are rebuilt with empty in-memory state; all safety monitors run at every step and the final abstract state after failure-free recovery rounds is compared with the failure-free run's; non-trivial = distinct (scenario, call signature, fault kind) tuples"
+	return "corpus = first deployment, rolling update, canary start, promotion by time, promotion by validate, failure and rollback (with and without canary pods), node removal, settings change, migration from a DaemonSet; the failure-free run of each scenario is recorded, then re-run once per (API call index k, fault kind) with the fault armed at the k-th call issued by a controller: both tiers = every call x 4 kinds, thorough adds 20000 seeded pairs; stop faults void the rest of the invocation and all reconciler instances are rebuilt with empty in-memory state; all safety monitors run at every step and the final abstract state after failure-free recovery rounds is compared with the failure-free run's; non-trivial = distinct (scenario, call signature, fault kind) tuples"
 }
 
 func c11Settle(w *World, rounds int) {
@@ -148,6 +148,23 @@ func c11Scripts() []c11Script {
 			w.quiet(func() { c11Settle(w, 4) })
 			_ = w.Kubectl("canary-fail", "ns1", "foo")
 			c11Settle(w, 6)
+		}},
+		{"failure-and-rollback-of-a-paused-canary-without-pods", func(w *World) {
+			// nothing but the rollback itself changes the status here, so a rollback that is only
+			// retried "when the status changes again" never completes after a fault
+			c11Nodes(w, 4)
+			w.CreateEDS(c11EDS(manualCanary()))
+			w.quiet(func() { c11Settle(w, 7) })
+			w.SetTemplate("ns1", "foo", kit.Tpl("B"))
+			w.quiet(func() {
+				w.Reconcile("eds", "ns1", "foo")
+				w.Reconcile("eds", "ns1", "foo")
+				w.Reconcile("eds", "ns1", "foo")
+				_ = w.Kubectl("canary-pause", "ns1", "foo")
+				c11Settle(w, 3)
+			})
+			_ = w.Kubectl("canary-fail", "ns1", "foo")
+			c11Settle(w, 5)
 		}},
 		{"node-removal", func(w *World) {
 			c11Nodes(w, 5)
